@@ -352,6 +352,35 @@ Proof.
 Qed.
 Print Assumptions panic_contained_forwarder.
 
+(* The same for a stream copied for two or more readers (the output of a node with several
+   successors): no copy panics when read, every copy carries the panic of the source as an error
+   item with the payload, ordinary error items are handed on (repair of F-C13d). *)
+Theorem panic_contained_copies : forall n its, (2 <= n)%nat ->
+  no_lazy (fanout n its) /\
+  (forall i, In (ILazy i) its -> In (IErr (PanicErr i)) (fanout n its)) /\
+  (forall e, In (IErr e) its -> In (IErr e) (fanout n its)).
+Proof.
+  intros n its Hn. split; [apply fanout_contains_lemma; exact Hn|]. split.
+  - intros i. apply fanout_panic_item_lemma. exact Hn.
+  - intros e. apply fanout_keeps_items_lemma.
+Qed.
+Print Assumptions panic_contained_copies.
+
+(* Before the repair of F-C13d the panic left the shared element of the copies empty: one copy
+   panicked, the others found ErrRecvAfterClosed — an error that does not carry the panic.  A run
+   whose only fault is the panicking stream could fail with that error; now every legal answer
+   carries the payload. *)
+Theorem copied_panic_v3_refuted :
+  (exists e, In (IErr e) (fanout_v3 2 [ILazy 5]) /\ as_panic e = None) /\
+  fanout 2 [ILazy 5] = [IErr (PanicErr 5)] /\
+  let F := [ mkGraph false [[NLam "src" FS (BConvPanic 5)]; [NLam "a" FI BOk; NLam "b" FC BOk]] false 0 BrNone ] in
+  map (fun a => match a with AErr e => (msg_path e, as_panic e) | _ => ([], None) end) (answers F PStream false None)
+  = [ (["a"], Some 5%N); (["b"], Some 5%N) ].
+Proof.
+  split; [exists (Leaf id_recv_closed); split; [right; left; reflexivity|reflexivity]|].
+  split; vm_compute; reflexivity.
+Qed.
+
 (* the same for the merged output of ToolsNode.Stream with two or more tool calls *)
 Theorem panic_contained_tool_forwarder : forall ts, (2 <= List.length ts)%nat ->
   no_lazy (tool_conv_panics ts) /\
